@@ -47,6 +47,7 @@ func run(e *harness.Env) {
 	c.spaceB2()
 	c.spaceC()
 	c.spaceD()
+	c.spaceT()
 }
 
 // ---- one document ---------------------------------------------------------------------------------------
